@@ -17,6 +17,34 @@ def load_known(path):
     return known
 
 
+class Collector:
+    """Same recording API as Report, used to run a rule over the fixture crate."""
+    def __init__(self):
+        self.bad = defaultdict(list)
+        self.good = defaultdict(list)
+    def rule(self, *a): pass
+    def note(self, *a): pass
+    def analysed(self, *a, **k): pass
+    def floor(self, *a, **k): pass
+    def ok(self, rule, key, where='-', detail=''):
+        self.good[rule].append(key)
+    def violation(self, rule, key, where, detail):
+        self.bad[rule].append(key)
+    def check(self, cond, rule, key, where, detail_ok='', detail_bad=''):
+        (self.ok if cond else self.violation)(rule, key, where, detail_ok)
+        return cond
+
+
+def expect_fixture_hits(rep, col, expected):
+    """expected: rule -> list of substrings, each of which must occur in some violation key of that rule"""
+    for rule, subs in expected.items():
+        for sub in subs:
+            hit = any(sub in k for k in col.bad.get(rule, []))
+            rep.check(hit, 'fixture', '%s/fires-on/%s' % (rule, sub), 'fixtures/',
+                      'rule %s fires on its positive example' % rule,
+                      'rule %s no longer fires on the fixture containing %r (dead rule)' % (rule, sub))
+
+
 class Report:
     def __init__(self, pid, tier, seed, level):
         self.pid, self.tier, self.seed, self.level = pid, tier, seed, level
